@@ -87,7 +87,7 @@ PROPS["C02"] = dict(
 PROPS["C03"] = dict(
     level="proof",
     functions=["ecdsa.ecdsa.Private_key.sign", "ecdsa.keys._truncate_and_convert_digest", "ecdsa.keys.SigningKey.sign_number",
-               "ecdsa.keys.SigningKey.sign_digest"],
+               "ecdsa.keys.SigningKey.sign_digest", "ecdsa.keys.SigningKey.from_secret_exponent"],
     lemmas=[],
     bounded=[_B("ecdsa.ecdsa.Private_key.sign", "toy curves of prime order, all d, k in [1, n-1] x structured e")],
     min_obligations=5,
@@ -104,4 +104,26 @@ PROPS["C01"] = dict(
     min_obligations=10,
     trusted_base=["scalar mode (see C02)", "the matching sigencode/sigdecode pair round-trips (C12, C13 contracts)", "the nonce sources return some k in [1, n-1] (C17 / C04 range contracts)"],
     explanation="lemma over the contracts of signer, encoder/decoder and verifier: k^-1(e + r d) inverted gives back kG; quantified over all d, k in [1, n-1], all digests, both truncation settings, plain and low-S encoders",
+)
+
+
+def _c17_hist(tier, seed):
+    from contracts.util import randrange_histogram
+    return randrange_histogram(tier, seed)
+
+
+PROPS["C17"] = dict(
+    level="other",
+    functions=["ecdsa.util.randrange", "ecdsa.util.randrange_from_seed__overshoot_modulo", "ecdsa.util.randrange_from_seed__trytryagain",
+               "ecdsa.util.string_to_number", "ecdsa.util.orderlen", "ecdsa.keys.SigningKey.sign_number",
+               "ecdsa.keys.SigningKey.generate", "ecdsa.keys.SigningKey.from_secret_exponent"],
+    lemmas=[],
+    bounded=[dict(function="ecdsa.util.randrange", label="exact output histogram of randrange", role="bounded stand-in for the uniformity clause",
+                  bound="all entropy chunks for orders below 2^8 (quick) / a stride through 2^12 (thorough): every v in [1, n-1] has the same number of pre-images",
+                  run=_c17_hist)],
+    min_obligations=8,
+    trusted_base=["byte-string axioms; entropy(k) returns k bytes", "util.PRNG is a deterministic byte stream of its seed (trusted)",
+                  "float: bits_and_bytes returns bits >= 1 (exact value not assumed)",
+                  "rejection sampling: equal pre-image counts of equiprobable chunks give a uniform result (counting argument, not mechanised)"],
+    explanation="range, per-iteration single draw of upper_256 bytes and `result = top upper_2 bits of the last chunk + 1` are proved for every order; exact uniformity is the bounded histogram plus the counting argument; determinism is purity (the functions read nothing but their arguments and the stream)",
 )
